@@ -269,6 +269,14 @@ func runC02(p *Prog, r *Report, tier string) {
 		}
 		r.Check(!bad, "R-GATE.update-len", fnKey(ss)+": set length field updated before the send", p.pos(ss.Pos()), "set.UpdateLenInHeader() on every path to the IPFIX send",
 			"a set can be sent without its length field having been written (stale or zero set length on the wire)", true)
+		// ... and nobody else reaches the IPFIX send: a caller that bypasses SendSet (e.g. the UDP template refresher) sends
+		// sets whose length field was never written
+		if sender != nil {
+			for _, cs := range p.CallGraph().callers[sender] {
+				r.Check(cs.Parent() == ss, "R-GATE.update-len", fmt.Sprintf("%s: called from %s", fnKey(sender), fnKey(cs.Parent())), p.instrPos(cs), "only SendSet (which updates the set length first) calls the IPFIX send function",
+					"the IPFIX send function is called without going through SendSet: set.UpdateLenInHeader() is skipped and the set goes out with a stale or zero length field", true)
+			}
+		}
 	}
 	// imported: set length bookkeeping and sharing
 	checkSetLengthBookkeeping(p, r, "R-VALUE.set-length")
